@@ -182,7 +182,25 @@ fn main() {
 			check_peek: true,
 				extra: None,
 		});
-		h.go(&sys, &Limits::deviation(if thorough { 2 } else { 1 }, 600).wall_secs(600).states(400_000_000), true);
+		h.go(&sys, &Limits::deviation(1, 600).wall_secs(600).states(400_000_000), true);
+		if thorough {
+			// two deviations: small and boundary lengths (every length took half an hour in all)
+			let sys2 = Flat(MSys {
+				name: format!("{name}/deviation-2/n<=32+boundary"),
+				spec: spec(name),
+				params: (1..=maxn).filter(|n| *n <= 32 || [63, 64, 126, 127, 128].contains(n) || *n + 1 >= maxn).map(|n| Params::N(n as PeriodType)).collect(),
+				v0s: vals(&[1.0, -3.0, 0.0]),
+				alphabet: vals(&[0.0, 1.0, -3.0, alpha::big() as ValueType, 1.7]),
+				mk_ref: mk_ref(name),
+				shape: Shape::Flat,
+				span: span2,
+				keyed: false,
+				positions: None,
+				check_peek: true,
+				extra: None,
+			});
+			h.go(&sys2, &Limits::deviation(2, 600).wall_secs(600).states(400_000_000), true);
+		}
 	}
 	// TSI: (short, long) pairs
 	{
